@@ -8,6 +8,12 @@ transformed rule converts to.
 also converted together with reference filters, a filter together with reference rules (log sources over all
 combinations of set / unset / empty-string attributes), because the log source decides which filters meet which rules.
 
+The object that is loaded from the written form (from_dict(to_dict(x)), and the same through YAML) is also compared with
+x itself, attribute by attribute (every dataclass field that takes part in ==, and the custom attributes; the detections
+of a rule are compared through the queries, because one value has several spellings there): comparing only the two
+dict forms cannot see a writer that loses something the same way every time (to_dict(from_dict(to_dict(x))) == to_dict(x)
+holds for any idempotent normalisation).  For the list-valued metadata "no entry" and "empty list" count as equal.
+
 Correspondence with the Lean model (`Model/Ser.lean`, theorems in `Props/C06.lean`): the detection section of
 every rule / filter document is sent to the driver (`ser.case`), which loads it with the model's
 `from_mapping` / `from_definition`, writes it with the model's `to_plain` and reloads its own output; the plain
@@ -32,7 +38,12 @@ RULE = ("rule documents with all metadata fields (dates in both accepted spellin
         "modifier chain or a correlation/filter document"
         "; transformed rules incl. many-to-one field mappings over all modifier sets, extract_fields / hashes_fields; correlation rules converted with their referenced rules"
         "; log sources over set / unset / empty-string category, product, service, definition and custom attributes, rules loaded with and without a source location; "
-        "rules converted together with reference filters and filters together with reference rules (one per log source shape)")
+        "rules converted together with reference filters and filters together with reference rules (one per log source shape)"
+        "; round 5: the object loaded from the written form (dict and YAML) compared with the original object attribute by attribute (all metadata, log source, "
+        "correlation parts, custom attributes; detections through the queries); metadata boundary stream (block-scalar texts with final / inner line breaks, blanks "
+        "at either end, empty strings, texts that read as other YAML types, explicitly empty lists, taxonomy, license) for rules, correlation rules and filters; "
+        "correlation boundary stream (group-by absent / empty / string / lists, aliases absent / empty, generate absent / false / true, rules as one string); "
+        "ordered many-to-one stream (the shared key K and K|all on target and sources, one value or a list, at every position of the map, values longer than one character)")
 ASSUMPTIONS = [
     "queries are compared as text produced by the test backend (same backend, same configuration on both sides)",
     "PyYAML is used for the YAML leg (safe_dump / safe_load)",
@@ -254,6 +265,112 @@ def gen_many_to_one(rnd):
     return det, {"type": "field_name_mapping", "mapping": {f: "c" for f in srcs}}
 
 
+# ------------------------------------------------------------------ round-5 streams
+# boundary values of the metadata strings: what a YAML block scalar ('|', '>') yields (final line break, inner line breaks),
+# quoted strings with blanks / tabs at either end, the empty string, texts that read as other YAML types
+EDGE_TEXT = ["First line.\nSecond line.\n", "folded text ends with a line break\n", " leading blank", "trailing blank ", "\tTab first", "two\n\nparagraphs\n\n",
+             "", "  ", "yes", "123", "null", "2024-01-31", "ends with colon:", "- dash first", "# hash first", "Grüße ", "'quoted'", "\n"]
+EDGE_NAMES = ["plain_name", " lead_name", "trail_name ", "two words", "name\n"]
+
+
+def meta_edge(rnd, doc, kind):
+    """metadata of a document with boundary values: strings of EDGE_TEXT, explicitly empty collections, non-default taxonomy"""
+    for k in ("description", "author"):
+        if rnd.random() < 0.6:
+            doc[k] = rnd.choice(EDGE_TEXT)
+    if rnd.random() < 0.3:
+        doc["title"] = rnd.choice(["Title ", " Title", "Title\n", "A title: with colon", "T"])
+    if rnd.random() < 0.3 and kind != "corr":
+        doc["name"] = rnd.choice(EDGE_NAMES)
+    for k in ("references", "falsepositives", "fields", "scope", "tags", "related"):
+        if rnd.random() < 0.12:
+            doc[k] = []
+    for k in ("references", "falsepositives", "fields", "scope"):
+        if rnd.random() < 0.15:
+            doc[k] = [rnd.choice(EDGE_TEXT) for _ in range(rnd.choice([1, 2]))]
+    if rnd.random() < 0.1:
+        doc["taxonomy"] = rnd.choice(["sigma", "custom"])
+    if rnd.random() < 0.1:
+        doc["license"] = rnd.choice(["MIT", "DRL-1.1 "])
+    if rnd.random() < 0.15:
+        doc["custom_attr"] = rnd.choice([{}, [], "", " text ", {"k": ""}, None, "block\n"])
+    return doc
+
+
+def gen_corr_edge(rnd, i):
+    """correlation rules over the boundary values of the optional parts: group-by absent / empty list / one string / lists,
+    aliases absent / empty / several, generate absent / false / true, rules as one string or a list"""
+    d = gen_corr(rnd, i)
+    c = d["correlation"]
+    c.pop("group-by", None)
+    gb = rnd.choice([None, [], [], ["user"], "user", ["user", "host"], ["host", "user"], [""]])
+    if gb is not None:
+        c["group-by"] = gb
+    c.pop("aliases", None)
+    al = rnd.choice([None, None, {}, {"user": {"rule_a": "u1", "rule_b": "u2"}}, {"user": {"rule_a": "u1"}, "host": {"rule_b": "h2", "rule_a": "h1"}}, {"user": {}}])
+    if al is not None:
+        c["aliases"] = al
+    c.pop("generate", None)
+    g = rnd.choice([None, False, True])
+    if g is not None:
+        c["generate"] = g
+    if "rules" in c and rnd.random() < 0.3:
+        c["rules"] = rnd.choice(["rule_a", "rule_b", []])
+    return d
+
+
+# many-to-one mappings, every order: the shared key K and its 'all' spelling K|all on the target and / or on sources, each with
+# one value or a value list, at any position of the map (to_plain's merging loop meets K, K|all in every order)
+M1O_MODS = ["", "contains", "startswith", "endswith", "cased", "contains|cased", "re", "re|i", "gt", "cidr", "fieldref", "windash", "base64", "exists", "neq", "contains|neq"]
+
+
+def m1o_scalar(rnd, mods, k):
+    """the k-th value: distinct per item, more than one character long"""
+    ms = mods.split("|")
+    if "exists" in ms: return k % 2 == 0
+    if "gt" in ms: return k + 11
+    if "cidr" in ms: return f"10.{k}.0.0/16"
+    if "fieldref" in ms: return f"other{k}"
+    if "re" in ms: return f"rx{k}.*"
+    if "windash" in ms: return f"-opt{k}"
+    if "base64" in ms: return f"b64v{k}"
+    if mods == "": return rnd.choice([f"word{k}", f"wild{k}*", k + 20, f"{k}{k}", None])
+    return rnd.choice([f"word{k}", f"wild{k}*x", f"{k}{k}"])
+
+
+def gen_many_to_one_ordered(rnd):
+    m = rnd.choice(M1O_MODS)
+    fields = ["a", "b", "d", "e", "c"]
+    rnd.shuffle(fields)
+    items, k = [], 0
+    for _ in range(rnd.choice([1, 2, 2, 3])):                     # items under K
+        k += 1
+        v = m1o_scalar(rnd, m, k)
+        r = rnd.random()
+        if r < 0.2: v = [v]
+        elif r < 0.27:
+            k += 1
+            v = [v, m1o_scalar(rnd, m, k)]
+        items.append((fields.pop(), m, v))
+    for _ in range(rnd.choice([0, 1, 1, 1, 2])):                  # items under K|all
+        k += 1
+        v = m1o_scalar(rnd, m, k)
+        r = rnd.random()
+        if r < 0.25: v = [v]
+        elif r < 0.55:
+            k += 2
+            v = [v, m1o_scalar(rnd, m, k - 1), m1o_scalar(rnd, m, k)][:rnd.choice([2, 3])]
+        items.append((fields.pop(), (m + "|all").lstrip("|"), v))
+    rnd.shuffle(items)
+    det = {f + ("|" + mm if mm else ""): v for f, mm, v in items}
+    if rnd.random() < 0.25:
+        pos = rnd.randrange(len(det) + 1)
+        kv = list(det.items())
+        kv.insert(pos, ("other", "o"))
+        det = dict(kv)
+    return det, {"type": "field_name_mapping", "mapping": {f: "c" for f, _, _ in items if f != "c"} or {"zz": "c"}}
+
+
 def t_yaml(t):
     return t["yaml"] if "yaml" in t else c12.t_yaml(t)
 
@@ -300,6 +417,26 @@ def gen_cases(tier, seed, gen, effort):
                 shape = rr.random()
                 doc["detection"] = {"sel": det if shape < 0.8 else [det, {"z": "k"}], "condition": rr.choice(["sel", "not sel"])}
                 cases.append({"kind": "transformed", "doc": doc, "t": {"yaml": ty}})
+    # round-5 streams (own generators: the streams above are unchanged)
+    r5 = random.Random(seed * 9431 + 8)
+    for i in range((240 if not thorough else 4000) * effort):
+        r = r5.random()
+        j = 500000 + i
+        if r < 0.35:        # boundary values of the metadata, all three kinds of documents
+            doc = meta_edge(r5, meta(r5, j), "rule")
+            doc["detection"] = {"sel": {"f": r5.choice(["x", ["x", "y*"], 1])}, "condition": "sel"}
+            cases.append({"kind": "rule", "doc": doc})
+        elif r < 0.45:
+            cases.append({"kind": "filter", "doc": meta_edge(r5, gen_filter(r5, j), "filter")})
+        elif r < 0.55:
+            cases.append({"kind": "corr", "doc": meta_edge(r5, gen_corr(r5, j), "corr")})
+        elif r < 0.70:      # boundary values of the optional parts of a correlation
+            cases.append({"kind": "corr", "doc": gen_corr_edge(r5, j)})
+        else:               # many-to-one mappings, every order of K and K|all items
+            det, ty = gen_many_to_one_ordered(r5)
+            doc = meta(r5, j)
+            doc["detection"] = {"sel": det if r5.random() < 0.85 else [det, {"z": "k"}], "condition": r5.choice(["sel", "not sel"])}
+            cases.append({"kind": "transformed", "doc": doc, "t": {"yaml": ty}})
     # fixed regression sub-stream: every (rule, transformation) pair of T2 (the inputs of the former findings
     # D60, D61, D68 among them) in every run
     for n, (dets, ty) in enumerate(T2):
@@ -487,6 +624,37 @@ def canon_condition(rule_obj):
         return None
 
 
+# the part of an object that is judged through the queries it converts to (the same value has several spellings there)
+SEMANTIC_FIELDS = {"rule": ("detection",), "filter": (), "corr": ()}
+# list-valued metadata: an empty list is not written, so "no entry" and "empty list" are one dict form
+META_LISTS = ("references", "tags", "fields", "falsepositives", "scope", "related")
+
+
+def object_diff(kind, a, b):
+    """the attributes in which two loaded objects differ: all dataclass fields that take part in ==, and the custom
+    attributes (without the copy of the document's 'correlation' section kept there: its content is compared attribute
+    by attribute); the detections of a rule are compared through the queries instead -> [[name, repr a, repr b], ...]"""
+    import dataclasses
+
+    def norm(n, v):
+        if n in META_LISTS and (v is None or v == [] or getattr(v, "related", None) == []):
+            return None
+        if n == "custom_attributes" and isinstance(v, dict):
+            return {k: x for k, x in v.items() if k != "correlation"}
+        return v
+    out = []
+    names = [f.name for f in dataclasses.fields(a) if f.compare and f.name not in SEMANTIC_FIELDS[kind] and not f.name.startswith("_")] + ["custom_attributes"]
+    for n in names:
+        try:
+            va, vb = norm(n, getattr(a, n)), norm(n, getattr(b, n))
+            same = va == vb and type(va) is type(vb)
+        except Exception as e:
+            va, vb, same = "?", outcome_of_exception(e), False
+        if not same:
+            out.append([n, repr(va)[:120], repr(vb)[:120]])
+    return out
+
+
 def run_impl(case):
     import yaml
     from sigma.rule import SigmaRule
@@ -552,6 +720,8 @@ def run_impl(case):
         y = yaml.safe_dump(d1, sort_keys=False)
         obj3 = cls.from_dict(yaml.safe_load(y))
         out["yaml_fixed_point"] = obj3.to_dict() == d1
+        if case["kind"] != "transformed":
+            out["obj_diff"], out["obj_diff_yaml"] = object_diff(case["kind"], obj, obj2), object_diff(case["kind"], obj, obj3)
         if case["kind"] == "rule":
             out["q1"], out["q2"], out["q3"] = convert(cls.from_dict(copy.deepcopy(srcdoc))), convert(obj2), convert(obj3)
             out["qf1"], out["qf2"], out["qf3"] = convert_with_filters(cls.from_dict(copy.deepcopy(srcdoc))), convert_with_filters(obj2), convert_with_filters(obj3)
@@ -673,6 +843,18 @@ def classify(case):
     return None
 
 
+UNWRITTEN = {"taxonomy": lambda v: v not in (None, "sigma")}
+
+
+def unwritten_class(doc, names):
+    """D74: the reloaded object differs from the original only in `taxonomy`, and the document sets one other than 'sigma' (to_dict
+    has no line that writes it; pinned by tests/test_rule.py::test_sigmarule_to_dict). `related` and `license` were in this class until
+    the repair a86c202 and are judged now."""
+    if names and all(n in UNWRITTEN and UNWRITTEN[n](doc.get(n)) for n in names):
+        return "D74"
+    return None
+
+
 LS_NAMED = ("category", "product", "service", "definition")
 
 
@@ -749,7 +931,7 @@ def judge(case, impl, reply):
     v = decide(case, impl)
     drift, mtags = correspondence(case, impl, reply)
     v.tags = tuple(v.tags) + tuple(mtags)
-    if v.status == "ok" and drift:
+    if (v.status == "ok" or v.finding == "D74") and drift:     # D74 is about metadata: the detections are still compared with the model
         return Verdict("drift", drift + f" :: {case['doc'].get('detection', case['doc'].get('filter'))} {case.get('t')}", v.nontrivial, v.key, tags=v.tags)
     if v.status == "ok" and reply is not None and case["kind"] == "rule" and impl["outcome"] == "ok" and reply.get("good") is False and not classify(case) \
             and reply.get("fixed") is not True:
@@ -806,4 +988,11 @@ def decide(case, impl):
         return Verdict("violation", f"correlation rule converts to {impl['q1']} but its serialised form to {impl['q2']} / via YAML {impl['q3']} :: {doc['correlation']}", nt, key, finding=fid, tags=tuple(tags))
     if case["kind"] == "rule" and not (impl["q1"] == impl["q2"] == impl["q3"]):
         return Verdict("violation", f"rule converts to {impl['q1']} but its serialised form to {impl['q2']} / via YAML {impl['q3']} :: {doc['detection']}", nt, key, finding=fid, tags=tuple(tags))
+    od = impl.get("obj_diff") or impl.get("obj_diff_yaml")
+    if od:
+        names = sorted({n for n, _, _ in od})
+        leg = "from_dict(to_dict(x))" if impl.get("obj_diff") else "the YAML dump of to_dict(x), loaded again,"
+        return Verdict("violation", (f"{case['kind']}: {leg} is not the object that was written: it differs from x in {names} "
+                                     f"({'; '.join(f'{n}: {a} became {b}' for n, a, b in od[:3])}) :: { {k: doc.get(k) for k in doc if k not in ('detection', 'filter')} }"),
+                       nt, key, finding=unwritten_class(doc, names), tags=tuple(tags + ["object"]))
     return Verdict("ok", "", nt, key, tags=tuple(tags))
